@@ -22,6 +22,7 @@ type evalCtx struct {
 	fr     *Frame
 	at     *ssa.BasicBlock
 	qdepth int
+	sink   *State // live state that receives definitional facts about fresh results of contract calls inside pure evaluation
 }
 
 var untypedInt = types.Typ[types.UntypedInt]
@@ -730,6 +731,9 @@ func (e *Engine) evalCall(c *evalCtx, n *ECall) Val {
 			oc := *c
 			oc.st = c.old
 			oc.old = nil
+			if oc.sink == nil {
+				oc.sink = c.st
+			}
 			return e.eval(&oc, n.Args[0])
 		case "len":
 			v := e.eval(c, n.Args[0])
